@@ -23,6 +23,7 @@ let () =
   if native_crc sample <> crc32 sample || native_crc [] <> crc32 [] then
     (prerr_endline "driver: native CRC disagrees with Model.crc32"; exit 3)
 let cur : dfile ref = ref (df_open N0 [])
+let saved : dfile ref = ref (df_open N0 [])
 let verbose = ref false
 
 let rec_of typ k v batch =
@@ -99,6 +100,9 @@ let file_exec (f : string array) : string =
      | Panic -> "panic"
      | OutOfFuel -> "fuel")
   | "load" -> cur := df_open !cur.df_id (tok_bytes f.(2)); string_of_int (int_of_n (df_size !cur))
+  | "save" -> saved := !cur; ""
+  | "restore" -> cur := df_open !saved.df_id !saved.df_bytes; string_of_int (int_of_n (df_size !cur))
+  | "flip" when int_of_string f.(2) >= int_of_n (len !cur.df_bytes) -> "err flip"
   | "flip" ->
     let off = int_of_string f.(2) and mask = int_of_string f.(3) in
     let s = Bytes.of_string (string_of_bytes !cur.df_bytes) in
